@@ -33,8 +33,10 @@ class ValHandle(Handle):
     def __init__(self, label, value):
         self.label = label
         self.value = value
+        self.loads = 0
 
     def load(self):
+        self.loads += 1
         return self.value
 
     def __repr__(self):
@@ -232,6 +234,7 @@ def mutations(model):
         if handles:
             for r in routes:
                 out.append(('replace', path, handles[0], r))
+                out.append(('tomap', path, handles[0], r))
         out.append(('clear', path, None, 'direct'))
         for k in sorted(node.kids):
             if isinstance(node.kids[k], Node):
@@ -327,6 +330,7 @@ def alias_phase(sp, cx, m, model, snap, absent_names):
         sp.cover('alias-second-owner-last')
     snap_a = take(sp, m, 'first owner, after aliasing')
     compare(sp, snap_a, model, m, (), 'snapshot of the first owner after aliasing', names)
+    frozen_a = Frozen(model)
     if other_model is not None:
         compare(sp, take(sp, other_model.real, 'second owner'), other_model, other_model.real, (),
                 'snapshot of the second owner', names)
@@ -368,8 +372,10 @@ def alias_phase(sp, cx, m, model, snap, absent_names):
     if other_model is not None:
         compare(sp, take(sp, other_model.real, 'second owner'), other_model, other_model.real, (),
                 'snapshot of the second owner after the change', names)
+    compare_frozen(sp, snap_a, frozen_a, (), 'snapshot taken before the change through the shared map')
+    sp.cover('old-snapshot-after-' + what)
     attack(sp, snap, model, (), names)
-    attack(sp, snap_b, model, (), names)
+    guarded_attack(sp, snap_b, model, names, 'last snapshot')
     compare(sp, snap_b, model, m, (), 'last snapshot after setattr/delattr attempts', names)
 
 
@@ -377,6 +383,89 @@ def node_at(model, path):
     for k in path:
         model = model.kids[k]
     return model
+
+
+def all_handles(model):
+    """every handle of the model tree once, deterministic order"""
+    out, seen = [], set()
+
+    def rec(node):
+        if id(node) in seen:
+            return
+        seen.add(id(node))
+        for k in sorted(node.kids):
+            v = node.kids[k]
+            if isinstance(v, Node):
+                rec(v)
+            elif not any(v is x for x in out):
+                out.append(v)
+    rec(model)
+    return out
+
+
+def guarded_attack(sp, snap, model, names, when):
+    """setattr/delattr attempts must raise AND change nothing: every second handle is cleared first so that the
+    attack hits names of cached and of uncached handles; (cached, number of load() calls, cached object) of every
+    handle must be the same afterwards"""
+    hs = all_handles(model)
+    for i, h in enumerate(hs):
+        if i % 2 == 0:
+            h.clear()
+            sp.cover('attack-on-uncached-handle-name')
+        elif h.cached:
+            sp.cover('attack-on-cached-handle-name')
+    before = [(h.cached, h.loads) for h in hs]
+    attack(sp, snap, model, (), names)
+    for h, (cached, loads) in zip(hs, before):
+        sp.check(h.cached is cached and h.loads == loads, 'attack-changes-nothing',
+                 '%s: after the refused setattr/delattr attempts handle %r has cached=%r (was %r) and %d load() '
+                 'calls (was %d)' % (when, h, h.cached, cached, h.loads, loads))
+        if cached:
+            sp.check(h() is h.value and h.loads == loads, 'attack-changes-nothing',
+                     '%s: cached object of %r changed during the attack' % (when, h))
+
+
+class Frozen:
+    """what a snapshot showed when it was taken: name -> handle object then | Frozen"""
+
+    def __init__(self, node):
+        self.kids = {k: (Frozen(v) if isinstance(v, Node) else v) for k, v in node.kids.items()}
+
+
+def compare_frozen(sp, snap, frozen, prefix, when):
+    """an OLD snapshot after the source map changed.  Asserted (unambiguous, HEAD does it): it is immutable, so
+    every name that was a handle when it was taken still yields that handle's resource (never a Handle object),
+    get still yields that handle object, and sub-snapshots present then are still present."""
+    for k in sorted(frozen.kids):
+        then = frozen.kids[k]
+        ps = '/'.join(prefix + (k,))
+        probes = [('snapshot[%r]', probe(lambda: snap[k]))]
+        if k.isidentifier():
+            probes.append(('snapshot attribute %r', probe(lambda: getattr(snap, k))))
+        for what, out in probes:
+            sp.check(out[0] == 'value', 'old-snapshot-stable',
+                     '%s: %s at %r of the old snapshot raised %r' % (when, what % k, ps, out[1]))
+            if isinstance(then, Frozen):
+                sp.check(isinstance(out[1], StaticResourceMap), 'old-snapshot-stable',
+                         '%s: %s at %r of the old snapshot is %r, it was a sub-snapshot' % (when, what % k, ps, out[1]))
+            else:
+                sp.check(not isinstance(out[1], Handle), 'old-snapshot-stable',
+                         '%s: %s at %r of the old snapshot yields the raw Handle %r instead of its resource' % (
+                             when, what % k, ps, out[1]))
+                sp.check(out[1] is then(), 'old-snapshot-stable',
+                         '%s: %s at %r of the old snapshot yields %r, not the resource of the handle stored there '
+                         'when the snapshot was taken' % (when, what % k, ps, out[1]))
+        got = probe(lambda: snap.get(k))
+        if isinstance(then, Frozen):
+            sp.check(got[0] == 'value' and isinstance(got[1], StaticResourceMap), 'old-snapshot-stable',
+                     '%s: get(%r) at %r of the old snapshot gives %r' % (when, k, ps, got[1]))
+            sub = probe(lambda: snap[k])
+            if sub[0] == 'value' and isinstance(sub[1], StaticResourceMap):
+                compare_frozen(sp, sub[1], then, prefix + (k,), when)
+        else:
+            sp.check(got[0] == 'value' and got[1] is then, 'old-snapshot-stable',
+                     '%s: get(%r) at %r of the old snapshot gives %r, not the handle stored then' % (when, k, ps, got[1]))
+    sp.cover('old-snapshot-rechecked')
 
 
 def h_static(sp, levels=((NAMES, 2), (SUB4, 2), (SUB2, 1)), rots=1, mutate=False, flavours=('plain',), alias=False):
@@ -395,7 +484,8 @@ def h_static(sp, levels=((NAMES, 2), (SUB4, 2), (SUB2, 1)), rots=1, mutate=False
     except Exception as ex:         # noqa
         sp.fail('snapshot-raises', 'get_static_map() raised %r' % (ex,))
     compare(sp, snap, model, m, (), 'fresh snapshot', absent_names)
-    attack(sp, snap, model, (), absent_names)
+    frozen = Frozen(model)
+    guarded_attack(sp, snap, model, absent_names, 'first snapshot')
     compare(sp, snap, model, m, (), 'after setattr/delattr attempts', absent_names)
     if mutate:
         # phase 2: one mutation of the tree, then a FRESH snapshot must mirror the map as it is now
@@ -412,17 +502,23 @@ def h_static(sp, levels=((NAMES, 2), (SUB4, 2), (SUB2, 1)), rots=1, mutate=False
                 sp.cover('resnapshot-after-clear')
             else:
                 h = cx.handle()
+                value = mval = h
+                if what == 'tomap':
+                    value = cx.map()
+                    value['a'] = h
+                    mval = Node(value)
+                    mval.kids['a'] = h
                 if route == 'composite':
                     key = '/'.join(path + (name,))
-                    sp.note('phase 2: m[%r] = %r   (%s)' % (key, h, what))
-                    m[key] = h
+                    sp.note('phase 2: m[%r] = %r   (%s)' % (key, value, what))
+                    m[key] = value
                     sp.cover('resnapshot-after-composite-key')
                 else:
-                    sp.note('phase 2: (%s)[%r] = %r   (%s)' % (where, name, h, what))
-                    node.real[name] = h
+                    sp.note('phase 2: (%s)[%r] = %r   (%s)' % (where, name, value, what))
+                    node.real[name] = value
                     if path:
                         sp.cover('resnapshot-after-direct-edit')
-                node.kids[name] = h
+                node.kids[name] = mval
                 sp.cover('resnapshot-after-' + what)
         except Exception as ex:         # noqa
             sp.fail('harness-model', 'phase 2 mutation raised %r' % (ex,))
@@ -437,9 +533,12 @@ def h_static(sp, levels=((NAMES, 2), (SUB4, 2), (SUB2, 1)), rots=1, mutate=False
         except Exception as ex:         # noqa
             sp.fail('snapshot-raises', 'second get_static_map() raised %r' % (ex,))
         compare(sp, snap2, model, m, (), 'fresh snapshot after the mutation', absent_names + NEW_NAMES)
-        # nothing is claimed about what the old snapshot shows now, only that it stays read-only
+        # the old snapshot: read-only, and it still shows what it showed when it was taken
+        compare_frozen(sp, snap, frozen, (), 'old snapshot after the mutation')
+        sp.cover('old-snapshot-after-' + what)
         attack(sp, snap, model, (), absent_names + NEW_NAMES)
-        attack(sp, snap2, model, (), absent_names)
+        compare_frozen(sp, snap, frozen, (), 'old snapshot after the mutation and setattr/delattr attempts')
+        guarded_attack(sp, snap2, model, absent_names, 'second snapshot')
         compare(sp, snap2, model, m, (), 'second snapshot after setattr/delattr attempts',
                 absent_names + NEW_NAMES)
     if alias:
@@ -449,7 +548,7 @@ def h_static(sp, levels=((NAMES, 2), (SUB4, 2), (SUB2, 1)), rots=1, mutate=False
     sp.done()
 
 
-_TAGS = ['layered', 'non-identifier', 'mangling-style', 'mangling-style-all-identifiers', 'attr-access',
+_TAGS = ['attack-on-uncached-handle-name', 'attack-on-cached-handle-name', 'layered', 'non-identifier', 'mangling-style', 'mangling-style-all-identifiers', 'attr-access',
          'handle-compared', 'deep-handle-compared', 'falsy-resource', 'submap-compared', 'attacked',
          'attacked-submap']
 
@@ -458,17 +557,20 @@ HARNESSES = {
                    required=_TAGS),
 }
 
-_MUT_TAGS = ['nested-mutation-resnapshot', 'deep-nested-mutation-resnapshot', 'root-mutation-resnapshot',
+_MUT_TAGS = ['old-snapshot-rechecked', 'old-snapshot-after-add', 'old-snapshot-after-replace',
+             'old-snapshot-after-tomap', 'old-snapshot-after-clear', 'resnapshot-after-tomap',
+             'nested-mutation-resnapshot', 'deep-nested-mutation-resnapshot', 'root-mutation-resnapshot',
              'resnapshot-after-composite-key', 'resnapshot-after-direct-edit', 'resnapshot-after-clear',
              'resnapshot-after-clear-nonempty', 'resnapshot-after-add', 'resnapshot-after-replace']
 _MUT_REQ = _TAGS + _MUT_TAGS
-_ALIAS_REQ = ['alias-other-root', 'alias-same-parent', 'alias-nested-sibling', 'alias-first-owner-last',
+_ALIAS_REQ = ['old-snapshot-rechecked', 'old-snapshot-after-tomap', 'old-snapshot-after-clear',
+              'attack-on-uncached-handle-name', 'attack-on-cached-handle-name', 'alias-other-root', 'alias-same-parent', 'alias-nested-sibling', 'alias-first-owner-last',
               'alias-second-owner-last', 'alias-add', 'alias-replace', 'alias-tomap', 'alias-clear',
               'alias-mutation-direct', 'alias-mutation-first-owner', 'alias-mutation-other-owner',
               'handle-compared', 'deep-handle-compared', 'submap-compared', 'attacked-submap', 'layered',
               'non-identifier']
 _FLAV_REQ = _TAGS + ['flavour-falsy', 'flavour-empty', 'flavour-equal']
-_MANGLE_REQ = ['layered', 'mangling-style', 'mangling-style-all-identifiers', 'mangled-with-one-trailing-underscore',
+_MANGLE_REQ = ['attack-on-uncached-handle-name', 'attack-on-cached-handle-name', 'layered', 'mangling-style', 'mangling-style-all-identifiers', 'mangled-with-one-trailing-underscore',
                'only-underscores', 'dunder-style', 'attr-access', 'handle-compared', 'deep-handle-compared',
                'falsy-resource', 'submap-compared', 'attacked', 'attacked-submap']
 
@@ -543,11 +645,15 @@ ASSUMPTIONS = [
     'per level only the first sub-map is expanded with the full choice, further sub-maps hold {a: handle}; '
     'get_static_map treats each map independently',
     'attribute access is exercised with getattr for every identifier name (keywords included)',
-    're-snapshot phase: "mirrors the map" is read as: the map as it is when get_static_map() is called; nothing is '
-    'asserted about what a snapshot taken before the mutation shows afterwards, only that it stays read-only',
+    're-snapshot phase: "mirrors the map" is read as: the map as it is when get_static_map() is called; a snapshot '
+    'taken before the mutation is immutable: every name that was a handle then still yields that handle\'s resource '
+    '(never a Handle object), get yields that handle object, sub-snapshots present then are still present, and it '
+    'stays read-only; whether it also shows names added later is not asserted',
+    '"changes nothing" for refused setattr/delattr includes the handles: cached flag, number of load() calls and '
+    'cached object of every handle are unchanged (every second handle is cleared before the attack)',
 ]
 OUTSIDE = ['names colliding with snapshot members', 'mutation that bypasses setattr/delattr '
            '(object.__setattr__, vars(snapshot) when a __dict__ exists)', 'trees deeper than 3 or wider than the '
-           'bound', 'what a snapshot taken before a mutation shows afterwards', 'more than one mutation between snapshots']
+           'bound', 'whether a snapshot taken before a mutation shows names added afterwards', 'more than one mutation between snapshots']
 
 TECHNIQUE = 'bounded symbolic execution (symx/z3) over tree shapes and name kinds, mirror oracle'
